@@ -276,8 +276,8 @@ Definition lease_ttl (r : referral) : Z :=
   | None => r_ns_ttl r * ns_ttl_unit
   end.
 
-(* [fx]: false = the code as it is; true = the proposed repair (props/C08/fix.patch):
-   the noted / descended deadline is clamped to observedAt + 12 h as well *)
+(* [fx]: true = the code as it is (since c959b0e the noted / descended deadline is clamped to
+   observedAt + 12 h as well); false = the pre-fix variant, kept for the regression examples *)
 Definition child_cut (fx : bool) (rs : rstate) (r : referral) : cut :=
   let c := min_cut (rs_cut rs) (Some (lease_deadline r, r_zone r)) in
   if fx then min_cut c (Some (r_obs r + max_ttl, r_zone r)) else c.
@@ -365,12 +365,11 @@ Fixpoint run (fx : bool) (acts : list act) (st : state) : state :=
   | a :: r => run fx r (step fx a st)
   end.
 
-(* which of the two step functions the correspondence check holds the code to.
-   false: /repo as it is.  Flip to true when props/C08/fix.patch (or an equivalent clamp of
-   the noted deadline to observedAt + 12 h) has been merged; the cases of finding
-   lease-12h-ceiling-answer-cut then agree with the model again and the `_repaired`
-   theorems become the ones that speak about the code. *)
-Definition code_fx : bool := false.
+(* which of the two step functions describes /repo.  Since fix commit c959b0e
+   (processDelegation clamps leaseDeadline to observedAt + authority.MaximumTTL before
+   minCut / noteCut) the code is the [fx = true] step function; [fx = false] is kept only
+   as the pre-fix variant the regression examples in Proofs_thm.v talk about. *)
+Definition code_fx : bool := true.
 
 (* the parent side re-establishing the delegation for z: the only step that may write key z *)
 Definition is_referral_for (z : zone) (a : act) : bool :=
